@@ -268,7 +268,7 @@ def op_part(np, data, tag=None):
 
 def gen_read(rng, tier, np):
     ops = []
-    reps = 1 if tier == 'quick' else 3
+    reps = 2 if tier == 'quick' else 4
     for _ in range(reps):
         makers = [lambda: mesh_box(rng), lambda: mesh_square(rng), lambda: mesh_prism(rng),
                   lambda: mesh_soup(rng, np), lambda: mesh_soup(rng, np), lambda: mesh_soup(rng, np),
@@ -633,7 +633,7 @@ def big_params(rng, np):
     for _ in range(4):
         marks.add(rng.randrange(ncell))
     pos = sorted(x for x in marks if 0 <= x < ncell)
-    return rng.choice([2, 3, 4]), B, ncell, rng.randrange(1 << 30), pos
+    return rng.choice([2, 3, 4]), B, ncell, rng.randrange(10 ** 9), pos  # (the harness takes numbers of <= 9 digits)
 
 
 def gen_chunk(rng, tier, np):
